@@ -537,6 +537,10 @@ class Tokenizer:
             self.append_token()
         elif self.state == TokenType.PAREN:
             self.token_str += char
+            if self.is_string and self.is_escaped:
+                # backslash-newline inside a string of the bracket: the escape
+                # ends here, the next character is an ordinary one
+                self.is_escaped = False
         self.line += 1
         self.col = 0
 
